@@ -3,6 +3,7 @@
    cut-off.  Proof method: replay (lock-step simulation of the second build against the first). *)
 From Coq Require Import List Ascii Bool Arith Lia Permutation.
 From Grog Require Import Str Label HashKey HashKey_proofs Build Build_proofs.
+From Grog Require Build_lift_proofs.
 Import ListNotations.
 
 Section C02.
@@ -158,7 +159,7 @@ Qed.
 Definition oc_pair (cfg : config) (t : tdef) (key : str) (c : cache) (ds : list (outdef * str * str))
   : result * list (str * str) :=
   if td_nocache t || negb (cfg_cache cfg) then
-    (mkRes (nocache_output_hash H (map (fun e => snd (fst e)) ds)) [], c_cas c)
+    (mkRes (nocache_output_hash H (map (fun e => (out_def (fst (fst e)), snd (fst e))) ds)) [], c_cas c)
   else match td_outs t with
        | [] => (mkRes key [], c_cas c)
        | _ => (mkRes (output_hash H (map (fun e => ser_out (fst (fst e)) (snd (fst e))) ds))
@@ -166,24 +167,32 @@ Definition oc_pair (cfg : config) (t : tdef) (key : str) (c : cache) (ds : list 
                cas_fold ds (c_cas c))
        end.
 
-Definition oc_state (i : nat) (key : str) (b : bstate) (res : result) (cas' : list (str * str)) : bstate :=
+(* a disabled cache is not written: the stored results stay (and cas' = c_cas c then, [oc_pair_cas_off]) *)
+Definition oc_state (cfg : config) (i : nat) (key : str) (b : bstate) (res : result) (cas' : list (str * str))
+  : bstate :=
   let c := b_cache b in
-  let b1 := set_cache b (mkCache (results_set key res (c_results c)) cas' (c_taint c)) in
+  let b1 := set_cache b (mkCache (if cfg_cache cfg then results_set key res (c_results c) else c_results c)
+                                 cas' (c_taint c)) in
   let x := get_rt b1 i in
   set_rt b1 i (mkRt (rt_key x) (Some (r_outhash res)) true (rt_status x)).
+
+Lemma oc_pair_cas_off cfg t key c ds : cfg_cache cfg = false -> snd (oc_pair cfg t key c ds) = c_cas c.
+Proof. intro Hc. unfold oc_pair. rewrite Hc, orb_true_r. reflexivity. Qed.
 
 Lemma on_complete_eq cfg i t key b :
   on_complete H cfg i t key b =
   match present_digests H t (td_outs t) (w_ws (b_world b)) with
   | None => None
-  | Some ds => Some (oc_state i key b (fst (oc_pair cfg t key (b_cache b) ds))
+  | Some ds => Some (oc_state cfg i key b (fst (oc_pair cfg t key (b_cache b) ds))
                               (snd (oc_pair cfg t key (b_cache b) ds)))
   end.
 Proof.
   unfold on_complete, oc_pair, oc_state, cas_fold.
   destruct (present_digests H t (td_outs t) (w_ws (b_world b))) as [ds|].
-  - destruct (td_nocache t || negb (cfg_cache cfg)); [reflexivity|].
-    destruct (td_outs t); reflexivity.
+  - destruct (cfg_cache cfg) eqn:Ec.
+    + destruct (td_nocache t || negb true); [reflexivity|].
+      destruct (td_outs t); reflexivity.
+    + rewrite orb_true_r. cbn [fst snd]. destruct (b_cache b); reflexivity.
   - destruct (td_outs t); reflexivity.
 Qed.
 
@@ -319,7 +328,7 @@ Qed.
 
 Lemma frame_oc_state i key b cfg t c ds :
   c = b_cache b ->
-  frame i b (oc_state i key b (fst (oc_pair cfg t key c ds)) (snd (oc_pair cfg t key c ds))).
+  frame i b (oc_state cfg i key b (fst (oc_pair cfg t key c ds)) (snd (oc_pair cfg t key c ds))).
 Proof.
   intros ->. unfold oc_state. repeat split.
   - rewrite rt_len_set_rt. reflexivity.
@@ -338,7 +347,7 @@ Lemma execute_cases cfg s i t key tainted b ok b' :
       check_ok w' t = true /\
       present_digests H t (td_outs t) (w_ws w') = Some ds /\
       b' = untaint tainted t
-             (oc_state i key (set_world (exec_b0 t b) w')
+             (oc_state cfg i key (set_world (exec_b0 t b) w')
                        (fst (oc_pair cfg t key (b_cache b) ds)) (snd (oc_pair cfg t key (b_cache b) ds)))).
 Proof.
   unfold execute. change (if null (td_cmd t) then b else add_exec b (td_label t)) with (exec_b0 t b).
@@ -391,22 +400,26 @@ Proof. unfold untaint; destruct tn; reflexivity. Qed.
 Lemma untaint_get_rt tn t b j : get_rt (untaint tn t b) j = get_rt b j.
 Proof. unfold untaint; destruct tn; reflexivity. Qed.
 
-Lemma oc_state_world i key b res cas : b_world (oc_state i key b res cas) = b_world b.
+Lemma oc_state_world cfg i key b res cas : b_world (oc_state cfg i key b res cas) = b_world b.
 Proof. reflexivity. Qed.
-Lemma oc_state_exec i key b res cas : b_exec (oc_state i key b res cas) = b_exec b.
+Lemma oc_state_exec cfg i key b res cas : b_exec (oc_state cfg i key b res cas) = b_exec b.
 Proof. reflexivity. Qed.
-Lemma oc_state_stop i key b res cas : b_stop (oc_state i key b res cas) = b_stop b.
+Lemma oc_state_stop cfg i key b res cas : b_stop (oc_state cfg i key b res cas) = b_stop b.
 Proof. reflexivity. Qed.
-Lemma oc_state_results i key b res cas :
-  c_results (b_cache (oc_state i key b res cas)) = results_set key res (c_results (b_cache b)).
+Lemma oc_state_results cfg i key b res cas :
+  c_results (b_cache (oc_state cfg i key b res cas)) =
+  if cfg_cache cfg then results_set key res (c_results (b_cache b)) else c_results (b_cache b).
 Proof. reflexivity. Qed.
-Lemma oc_state_cas i key b res cas : c_cas (b_cache (oc_state i key b res cas)) = cas.
+Lemma oc_state_results_on cfg i key b res cas : cfg_cache cfg = true ->
+  c_results (b_cache (oc_state cfg i key b res cas)) = results_set key res (c_results (b_cache b)).
+Proof. intro Hc. rewrite oc_state_results, Hc. reflexivity. Qed.
+Lemma oc_state_cas cfg i key b res cas : c_cas (b_cache (oc_state cfg i key b res cas)) = cas.
 Proof. reflexivity. Qed.
-Lemma oc_state_taint i key b res cas : c_taint (b_cache (oc_state i key b res cas)) = c_taint (b_cache b).
+Lemma oc_state_taint cfg i key b res cas : c_taint (b_cache (oc_state cfg i key b res cas)) = c_taint (b_cache b).
 Proof. reflexivity. Qed.
-Lemma oc_state_get_rt_same i key b res cas :
+Lemma oc_state_get_rt_same cfg i key b res cas :
   i < rt_len b ->
-  get_rt (oc_state i key b res cas) i =
+  get_rt (oc_state cfg i key b res cas) i =
   mkRt (rt_key (get_rt b i)) (Some (r_outhash res)) true (rt_status (get_rt b i)).
 Proof. intro Hi. unfold oc_state. rewrite get_rt_set_rt_same; [reflexivity | exact Hi]. Qed.
 
@@ -433,7 +446,7 @@ Proof.
   intros E Hk. apply execute_cases in E as [(_ & w' & -> & _)|(_ & w' & ds & _ & _ & _ & ->)].
   - rewrite b_cache_set_world, exec_b0_cache. reflexivity.
   - rewrite untaint_results, oc_state_results, b_cache_set_world, exec_b0_cache.
-    apply rlookup_set_other. exact Hk.
+    destruct (cfg_cache cfg); [apply rlookup_set_other; exact Hk | reflexivity].
 Qed.
 
 Lemma execute_fail_cache cfg s i t key tainted b b' :
@@ -500,7 +513,7 @@ Proof.
     + rewrite get_rt_set_world, exec_b0_get_rt. reflexivity.
     + rewrite rt_len_set_world. unfold rt_len. rewrite exec_b0_rt. exact Hi.
   - unfold hit_ready_b. exists (fst pr).
-    rewrite untaint_results, untaint_world, oc_state_results, oc_state_world, b_world_set_world.
+    rewrite untaint_results, untaint_world, oc_state_results_on, oc_state_world, b_world_set_world by exact Hc.
     split; [apply rlookup_set_same|]. split; [reflexivity|].
     split; [apply oc_pair_match; auto|]. split.
     + unfold untaint. destruct (label_in (td_label t) (c_taint (b_cache b))) eqn:Et.
@@ -910,12 +923,15 @@ Proof.
   - rewrite b_cache_set_world, exec_b0_cache. exact Hcc.
   - intros k r Hr def dg Hin. rewrite untaint_results, oc_state_results, b_cache_set_world, exec_b0_cache in Hr.
     rewrite untaint_cas, oc_state_cas.
+    assert (Hold : rlookup k (c_results (b_cache b)) = Some r ->
+                   alookup dg (snd (oc_pair cfg t key (b_cache b) ds)) <> None).
+    { intro Hr'. pose proof (Hcc k r Hr' def dg Hin) as Hb.
+      destruct (alookup dg (c_cas (b_cache b))) as [x|] eqn:Ex; [|congruence].
+      rewrite (oc_pair_cas_mono cfg t key (b_cache b) ds dg x Ex). discriminate. }
+    destruct (cfg_cache cfg); [|apply Hold, Hr].
     destruct (str_eq_dec key k) as [->|Hne].
     + rewrite rlookup_set_same in Hr. inversion Hr; subst r. apply oc_pair_blobs with def. exact Hin.
-    + rewrite rlookup_set_other in Hr; [|exact Hne].
-      pose proof (Hcc k r Hr def dg Hin) as Hb.
-      destruct (alookup dg (c_cas (b_cache b))) as [x|] eqn:Ex; [|congruence].
-      rewrite (oc_pair_cas_mono cfg t key (b_cache b) ds dg x Ex). discriminate.
+    + rewrite rlookup_set_other in Hr; [|exact Hne]. apply Hold, Hr.
 Qed.
 
 Lemma load_outputs_cache i t r b : b_cache (snd (load_outputs H i t r b)) = b_cache b.
@@ -931,6 +947,7 @@ Proof.
   induction fuel as [|f IH]; intros ds b Hcc; cbn [load_dep_outputs]; [exact Hcc|].
   destruct ds as [|d0 ds']; [exact Hcc|].
   destruct (resolve s d0) as [[d dt]|]; [|apply IH, Hcc].
+  destruct (rt_loaded (get_rt b d)); [apply IH, Hcc|].
   destruct (rt_key (get_rt b d)) as [dkey|]; [|exact Hcc].
   destruct (rlookup dkey (c_results (b_cache b))) as [r|].
   - destruct (load_outputs H d dt r b) as [ok b1] eqn:El.
@@ -1414,6 +1431,23 @@ Proof.
     + intros j1 j2 k Hj1 Hj2. apply Hdk; right; assumption.
 Qed.
 
+(* a run without failures destroys no external condition *)
+Lemma run_ext_ok l : forall b,
+  NoDup l -> (forall i, In i l -> fresh b i /\ i < rt_len b) -> no_failed_in l (run l b) ->
+  forall lb, label_in lb (w_ext (b_world b)) = true -> label_in lb (w_ext (b_world (run l b))) = true.
+Proof.
+  induction l as [|a l IH]; intros b Hnd Hfr Hnf lb Hlb; [exact Hlb|].
+  pose proof (fresh_tail a l b Hnd Hfr) as Hfr'.
+  inversion Hnd as [|? ? Hna Hnd']; subst.
+  destruct (Hfr a (or_introl eq_refl)) as [Hfa Hla].
+  rewrite run_cons in *.
+  assert (Hfr'' : forall i0, In i0 l -> fresh (pn b a) i0) by (intros i0 Hi0; apply Hfr', Hi0).
+  apply IH; auto.
+  - intros j Hj. apply Hnf. right; exact Hj.
+  - destruct (pn_ext b a lb Hfa Hla Hlb) as [E|[Hst _]]; [exact E|].
+    exfalso. apply (Hnf a (or_introl eq_refl)). rewrite run_other; auto.
+Qed.
+
 End Walk.
 
 (* ================================================================== replay: the second build against the first *)
@@ -1812,6 +1846,79 @@ Proof.
   - intros i j k _. apply Hcross.
 Qed.
 
+(* the same from ANY cache c' that holds the results and blobs the first build left and no further taint,
+   and ANY world in which the external conditions that held after the first build still hold (e.g. after a
+   build with the cache disabled, [cache_off_leaves_cache]) *)
+Definition serves (c1 c' : cache) : Prop :=
+  c_results c' = c_results c1 /\ c_cas c' = c_cas c1 /\
+  (forall l, label_in l (c_taint c') = true -> label_in l (c_taint c1) = true).
+
+Lemma serves_refl c : serves c c.
+Proof. repeat split; auto. Qed.
+
+Lemma serves_cc c1 c' : serves c1 c' -> cache_complete c1 -> cache_complete c'.
+Proof. intros (Hr & Hc & _) Hcc k r Hk def dg Hin. rewrite Hr in Hk. rewrite Hc. eapply Hcc; eauto. Qed.
+
+Lemma rel_init_gen n w c w' c' :
+  let b1 := init_b w c n in
+  let F1 := run cfg s1 sel1 (seq 0 n) b1 in
+  let b2 := init_b w' c' n in
+  cache_complete c ->
+  (forall i, rt_status (get_rt F1 i) <> TFailed) ->
+  (forall i j k, i <> j -> rt_key (get_rt F1 i) = Some k -> rt_key (get_rt F1 j) <> Some k) ->
+  serves (b_cache F1) c' ->
+  (forall l, label_in l (w_ext (b_world F1)) = true -> label_in l (w_ext w') = true) ->
+  Rel F1 (seq 0 n) b1 b2.
+Proof.
+  intros b1 F1 b2 Hcc Hnf Hdk Hsv Hext.
+  assert (Hfr : forall b0 w0 c0, b0 = init_b w0 c0 n -> forall i, In i (seq 0 n) -> fresh b0 i /\ i < rt_len b0).
+  { intros b0 w0 c0 -> i Hi. split; [apply init_b_fresh|]. rewrite init_b_len. apply in_seq in Hi. lia. }
+  split; [|split; [|split; [|split; [|split; [|split]]]]].
+  - intros j _. unfold b1, b2. rewrite !init_b_fresh. repeat split; reflexivity.
+  - intros j Hj. split; [apply (Hfr b1 w c eq_refl j Hj) | apply (Hfr b2 w' _ eq_refl j Hj)].
+  - intros j t key oh Hj HE Hn Hnc Hok Hk Ho.
+    destruct (run_facts cfg s1 sel1 Hmode (seq 0 n) b1 (seq_NoDup n 0) (Hfr b1 w c eq_refl) Hcache)
+      with (i := j) (t := t) as (key' & oh' & Hk' & Ho' & Hhr); auto.
+    + intros i _. apply Hnf.
+    + intros i1 i2 k _ _. apply Hdk.
+    + change (rt_key (get_rt F1 j) = Some key') in Hk'. change (rt_ohash (get_rt F1 j) = Some oh') in Ho'.
+      change (hit_ready_b F1 t key' oh') in Hhr.
+      assert (key' = key) by congruence. assert (oh' = oh) by congruence. subst key' oh'.
+      destruct Hhr as (r & Hr & Hoh & Hom & Ht & Hchk). exists r.
+      destruct Hsv as (Sr & Sc & St).
+      unfold b2, init_b. cbn [b_cache b_world]. rewrite Sr. repeat split; auto.
+      * destruct (label_in (td_label t) (c_taint c')) eqn:Et; [|reflexivity]. apply St in Et. congruence.
+      * unfold check_ext in *. apply orb_true_iff in Hchk as [Hchk|Hchk]; apply orb_true_iff; auto.
+  - reflexivity.
+  - reflexivity.
+  - unfold b2, init_b. cbn [b_cache]. apply (serves_cc _ _ Hsv).
+    unfold F1, run. apply fold_process_node_cc. exact Hcc.
+  - intros lb [].
+Qed.
+
+Lemma replay_init_gen n w c w' c' :
+  let b1 := init_b w c n in
+  let F1 := run cfg s1 sel1 (seq 0 n) b1 in
+  let b2 := init_b w' c' n in
+  let F2 := run cfg s2 sel2 (seq 0 n) b2 in
+  cache_complete c ->
+  (forall i, rt_status (get_rt F1 i) <> TFailed) ->
+  (forall i j k, i <> j -> rt_key (get_rt F1 i) = Some k -> rt_key (get_rt F1 j) <> Some k) ->
+  (forall i j k, K i = true -> i <> j -> rt_key (get_rt F2 i) = Some k -> rt_key (get_rt F1 j) <> Some k) ->
+  serves (b_cache F1) c' ->
+  (forall l, label_in l (w_ext (b_world F1)) = true -> label_in l (w_ext w') = true) ->
+  Stopped F2 \/ Rel F1 [] F1 F2.
+Proof.
+  intros b1 F1 b2 F2 Hcc Hnf Hdk Hcross Hsv Hext.
+  pose proof (rel_init_gen n w c w' c' Hcc Hnf Hdk Hsv Hext) as HR. fold b1 F1 b2 in HR.
+  pose proof (replay_gen (seq 0 n) [] b1 b2) as Hrep. rewrite app_nil_r in Hrep.
+  apply Hrep.
+  - apply seq_NoDup.
+  - exact HR.
+  - intros i _. apply Hnf.
+  - intros i j k _. apply Hcross.
+Qed.
+
 End Replay.
 
 (* ------------------------------------------------------------------ builds as runs *)
@@ -2064,6 +2171,114 @@ Corollary noop_rebuild_labels cfg s roots w c ps :
 Proof.
   intros H_inj H_hex Hm Hc Hcc Hok Hdl Hnn.
   apply noop_rebuild; auto. apply distinct_labels_distinct_keys; assumption.
+Qed.
+
+(* ================================================================== the rebuild from any cache that serves as well *)
+(* the second build may start from ANY world in which the external conditions that held after the first
+   build still hold and from ANY cache holding the first build's results and blobs and no further taint *)
+Theorem noop_rebuild_gen cfg s roots w c w' c' :
+  cfg_mode cfg = LAll -> cfg_cache cfg = true -> cache_complete c ->
+  br_ok (build H cfg s roots w c) = true ->
+  distinct_keys (build_state cfg s roots w c) = true ->
+  no_nocache_sel s (selection s roots) = true ->
+  let r1 := build H cfg s roots w c in
+  serves (br_cache r1) c' ->
+  (forall l, label_in l (w_ext (br_world r1)) = true -> label_in l (w_ext w') = true) ->
+  let r2 := build H cfg s roots w' c' in
+  br_exec r2 = [] /\ br_ok r2 = true.
+Proof.
+  intros Hm Hc Hcc Hok Hdk Hnn r1 Hsv Hext r2.
+  set (n := length (s_nodes s)). set (sel := selection s roots).
+  pose proof (proj1 (br_ok_iff cfg s roots w c) Hok) as Hnf.
+  pose proof (distinct_keys_spec _ Hdk) as Hdk'.
+  destruct (replay_init_gen cfg s s sel sel (fun _ => false) (fun _ => false) Hm Hc eq_refl)
+    with (n := n) (w := w) (c := c) (w' := w') (c' := c')
+    as [(_ & (j & Hj) & _)|(R1 & _ & _ & _ & _ & _ & R7)]; auto; try discriminate.
+  - intros i t _ Hin Hn. apply (no_nocache_sel_spec s sel i t Hnn Hin Hn).
+  - split.
+    + change (br_exec r2) with (b_exec (build_state cfg s roots w' c')).
+      destruct (b_exec (build_state cfg s roots w' c')) as [|lb ex] eqn:Eex; [reflexivity|].
+      exfalso. destruct (R7 lb) as (j & t & Hj & _); [|discriminate Hj].
+      unfold build_state in Eex. fold n sel in Eex. rewrite Eex. left; reflexivity.
+    + apply br_ok_iff. intro i. destruct (R1 i eq_refl) as (Est & _).
+      unfold build_state. fold n sel. rewrite Est. specialize (Hnf i). unfold build_state in Hnf. fold n sel in Hnf.
+      destruct (rt_status (get_rt (run cfg s sel (seq 0 n) (init_b w c n)) i)); cbn [hitify]; congruence.
+Qed.
+
+(* a successful build (mode all) destroys no external condition *)
+Lemma build_ext_ok cfg s roots w c :
+  cfg_mode cfg = LAll -> br_ok (build H cfg s roots w c) = true ->
+  forall l, label_in l (w_ext w) = true -> label_in l (w_ext (br_world (build H cfg s roots w c))) = true.
+Proof.
+  intros Hm Hok l Hl. pose proof (proj1 (br_ok_iff cfg s roots w c) Hok) as Hnf.
+  change (br_world (build H cfg s roots w c)) with (b_world (build_state cfg s roots w c)).
+  unfold build_state in *. apply run_ext_ok; auto.
+  - apply seq_NoDup.
+  - intros i Hi. split; [apply init_b_fresh|]. rewrite init_b_len. apply in_seq in Hi. lia.
+  - intros i _. apply Hnf.
+Qed.
+
+(* C13 / C02: build with the cache on; do anything to the output paths; build ANY snapshot with the cache
+   DISABLED (it succeeds); build the first snapshot again with the cache on: nothing runs.  (Before the
+   repair of C02-F2 / C13-F1 the cache-disabled build overwrote the stored results with output-less records
+   and the third build re-ran every target that declares outputs.) *)
+Theorem rebuild_after_cache_off cfg cfg' s s' roots roots' w c ps :
+  cfg_mode cfg = LAll -> cfg_cache cfg = true -> cache_complete c ->
+  br_ok (build H cfg s roots w c) = true ->
+  distinct_keys (build_state cfg s roots w c) = true ->
+  no_nocache_sel s (selection s roots) = true ->
+  cfg_mode cfg' = LAll -> cfg_cache cfg' = false ->
+  let r1 := build H cfg s roots w c in
+  let w1 := mkWorld (apply_perturbs ps (w_ws (br_world r1))) (w_ext (br_world r1)) in
+  let roff := build H cfg' s' roots' w1 (br_cache r1) in
+  br_ok roff = true ->
+  let r3 := build H cfg s roots (br_world roff) (br_cache roff) in
+  c_results (br_cache roff) = c_results (br_cache r1) /\ c_cas (br_cache roff) = c_cas (br_cache r1) /\
+  br_exec r3 = [] /\ br_ok r3 = true.
+Proof.
+  intros Hm Hc Hcc Hok Hdk Hnn Hm' Hc' r1 w1 roff Hokoff r3.
+  pose proof (Build_lift_proofs.cache_off_leaves_cache H cfg' s' roots' w1 (br_cache r1) Hc') as (Kr & Kc & Kt).
+  fold roff in Kr, Kc, Kt.
+  split; [exact Kr|]. split; [exact Kc|].
+  apply (noop_rebuild_gen cfg s roots w c (br_world roff) (br_cache roff)); auto.
+  - repeat split; assumption.
+  - intros l Hl. apply (build_ext_ok cfg' s' roots' w1 (br_cache r1) Hm' Hokoff). exact Hl.
+Qed.
+
+(* the same over histories: after ANY history without a lost blob, [build on; perturbations of output paths;
+   build off; build on] -- the last build runs nothing *)
+Definition perturb_ops (ps : list (str * pstate)) : list op := map (fun p => OpPerturb (fst p) (snd p)) ps.
+
+Lemma step_perturbs ps : forall y,
+  fold_left (step_op H) (perturb_ops ps) y =
+  mkSys (sy_src y) (mkWorld (apply_perturbs ps (w_ws (sy_world y))) (w_ext (sy_world y))) (sy_cache y) (sy_log y).
+Proof.
+  unfold perturb_ops, apply_perturbs. induction ps as [|p ps IH]; intro y; cbn [map fold_left].
+  - destruct y as [src [ws ext] ca lg]. reflexivity.
+  - rewrite IH. reflexivity.
+Qed.
+
+Theorem history_rebuild_after_cache_off ops cfg cfg' roots roots' ps :
+  no_blob_faults ops = true ->
+  cfg_mode cfg = LAll -> cfg_cache cfg = true -> cfg_mode cfg' = LAll -> cfg_cache cfg' = false ->
+  let y := run_history H ops in
+  let s := sy_src y in
+  let r1 := build H cfg s roots (sy_world y) (sy_cache y) in
+  let w1 := mkWorld (apply_perturbs ps (w_ws (br_world r1))) (w_ext (br_world r1)) in
+  let roff := build H cfg' s roots' w1 (br_cache r1) in
+  let r3 := build H cfg s roots (br_world roff) (br_cache roff) in
+  br_ok r1 = true -> distinct_keys (build_state cfg s roots (sy_world y) (sy_cache y)) = true ->
+  no_nocache_sel s (selection s roots) = true -> br_ok roff = true ->
+  sy_log (run_history H (ops ++ OpBuild cfg roots :: perturb_ops ps ++ [OpBuild cfg' roots'; OpBuild cfg roots]))
+    = sy_log y ++ [r1; roff; r3] /\
+  br_exec r3 = [] /\ br_ok r3 = true.
+Proof.
+  intros Hg Hm Hc Hm' Hc' y s r1 w1 roff r3 Hok Hdk Hnn Hokoff. split.
+  - unfold run_history. rewrite fold_left_app. fold (run_history H ops). fold y.
+    cbn [fold_left step_op]. rewrite fold_left_app, step_perturbs. cbn [fold_left step_op sy_src sy_world sy_cache sy_log].
+    rewrite <- !app_assoc. reflexivity.
+  - destruct (rebuild_after_cache_off cfg cfg' s s roots roots' (sy_world y) (sy_cache y) ps) as (_ & _ & R); auto.
+    apply run_history_cache_complete, Hg.
 Qed.
 
 (* ================================================================== C02_exec_only_if / C02_hit_if (single task) *)
@@ -2746,6 +2961,34 @@ Proof.
   apply (noop_rebuild_labels hex_enc cfgA sx [3] w0 empty_cache ps hex_enc_inj hex_enc_no_us); try (vm_compute; reflexivity).
   apply empty_cache_complete.
 Qed.
+
+(* build (cache on), the same perturbations, build with the cache DISABLED (runs everything, stores nothing),
+   build (cache on): nothing runs -- every guard of [rebuild_after_cache_off] holds on this instance *)
+Definition cfgOff : config := mkCfg LAll false false.
+Definition roff := build hex_enc cfgOff sx [3] w1 (br_cache r1).
+Definition r3 := build hex_enc cfgA sx [3] (br_world roff) (br_cache roff).
+
+Example rebuild_after_cache_off_nonvacuous :
+  br_ok r1 = true /\
+  distinct_keys (build_state hex_enc cfgA sx [3] w0 empty_cache) = true /\
+  no_nocache_sel sx (selection sx [3]) = true /\
+  br_ok roff = true /\ List.length (br_exec roff) = 3 /\
+  br_status roff = [TExecuted; TExecuted; THit; TExecuted] /\
+  c_results (br_cache roff) = c_results (br_cache r1) /\ c_cas (br_cache roff) = c_cas (br_cache r1) /\
+  br_exec r3 = [] /\ br_ok r3 = true /\ br_status r3 = [THit; THit; THit; THit].
+Proof. vm_compute. repeat split; reflexivity. Qed.
+
+Example rebuild_after_cache_off_instance : br_exec r3 = [] /\ br_ok r3 = true.
+Proof.
+  destruct (rebuild_after_cache_off hex_enc cfgA cfgOff sx sx [3] [3] w0 empty_cache ps) as (_ & _ & R);
+    try (vm_compute; reflexivity); [apply empty_cache_complete | exact R].
+Qed.
+
+Example history_rebuild_after_cache_off_instance :
+  map (fun r => List.length (br_exec r))
+      (sy_log (run_history hex_enc ([OpSources sx] ++ OpBuild cfgA [3] :: perturb_ops ps ++
+                                    [OpBuild cfgOff [3]; OpBuild cfgA [3]]))) = [3; 3; 0].
+Proof. vm_compute. reflexivity. Qed.
 
 (* without distinct keys the statement is false, and distinct labels do not give distinct keys when the
    digest is not injective: under a constant digest //p:a and //p:ab share one change key; the second
